@@ -3,6 +3,7 @@ import ObiVerif.Model.IterWorker
 import ObiVerif.Model.IterMore
 import ObiVerif.Model.ReseqTrace
 import ObiVerif.Model.LoopMachines
+import ObiVerif.Model.PoolSteps
 import ObiVerif.Driver.Util
 /-! line protocol for C03: `<combinator> [params] | <stream> | <stream> …`, a stream being the
 arrival-ordered list of `order:id,id,…` -/
@@ -222,7 +223,46 @@ def runAdaptNil (variant : String) (boe : Bool) (sp : WSpec) (l : List Rec) : Op
   | "chainnn" => some (if (chainWorkersOpt growMin none none).isNone then "nil" else "worker")
   | _ => none
 
-def run (line : String) : String :=
+def showDivide (n : Nat) (s : List Batch) : String :=
+  let (t, f) := divideOn predP n s
+  if divideMachine n s != (t, f) then "machine-differs" else
+  s!"T {showStream t} F {showStream f}"
+
+def showDistribute (n : Nat) (s : List Batch) : String :=
+  if (List.range 4).any (fun k => distributeMachine n k s != distributeKey clsK n k s) then "machine-differs" else
+  joinSp ((List.range 4).filterMap fun k =>
+    let st := distributeKey clsK n k s
+    if st.isEmpty then none else some s!"K{k} {showStream st}")
+
+/-- `keepiter COMB N p=P | stream` (third round): the combinators of /repo 01cfd50 called on an iterator the
+caller keeps using: the result is the combinator's, the paired flag is carried, the caller's value is kept -/
+def runKeepIter (comb : String) (n p : Nat) (s : List Batch) : String :=
+  if n = 0 || p > 1 then "bad-op" else
+  let body : Option String :=
+    if comb = "rebatch" then some (showStream (rebatch n s))
+    else if comb = "filterempty" then some (showStream (filterEmpty s))
+    else if comb = "sort" then some (showStream (sortBatches s))
+    else if comb = "divide" then some (showDivide n s)
+    else if comb = "distribute" then some (showDistribute n s)
+    else none
+  match body with
+  | some b => s!"paired={p} kept=1 {b}"
+  | none => "bad-op"
+
+/-- pool of several streams: the numbers 0..n-1 and the records, both sorted (the interleaving is the scheduler's);
+`PoolSteps.poolRun` (the small-step machine run with the round-robin scheduler) must agree -/
+def showPool (ss : List (List Batch)) : String :=
+  let out := pool ss.flatten
+  -- the small-step machine of `Model/PoolSteps.lean` run to its end under the round-robin scheduler, unbuffered
+  -- and buffered: it must end, deliver `pool` of the order of numbering, and have numbered every input batch
+  let bad := [0, 2].any fun cap =>
+    let st := ObiVerif.PoolSteps.poolRun cap ss
+    !(st.closed && st.cout.isEmpty && st.delivered == pool st.taken && st.taken.length == ss.flatten.length &&
+      sortNat (flatten st.taken) == sortNat (flatten ss.flatten))
+  if bad then "machine-differs" else
+  s!"orders={",".intercalate ((sortNat (out.map (·.1))).map toString)} recs={",".intercalate ((sortNat (flatten out)).map toString)}"
+
+def runBase (line : String) : String :=
   match line.splitOn " | " with
   | head :: streams =>
     match streams.mapM parseStream, words head with
@@ -235,10 +275,7 @@ def run (line : String) : String :=
     | some (s :: rest), ["concat"] => showStream (concat s rest)
     | some [s], ["divide", n] =>
         match n.toNat? with
-        | some n => if n = 0 then "bad-op" else
-            let (t, f) := divideOn predP n s
-            if divideMachine n s != (t, f) then "machine-differs" else
-            s!"T {showStream t} F {showStream f}"
+        | some n => if n = 0 then "bad-op" else showDivide n s
         | none => "bad-op"
     | some [s], ["filteron", n, _] =>
         match n.toNat? with
@@ -250,11 +287,7 @@ def run (line : String) : String :=
         (runWorkerOp (words head) s).getD "bad-op"
     | some [s], ["distribute", n] =>
         match n.toNat? with
-        | some n => if n = 0 then "bad-op" else
-            if (List.range 4).any (fun k => distributeMachine n k s != distributeKey clsK n k s) then "machine-differs" else
-            joinSp ((List.range 4).filterMap fun k =>
-              let st := distributeKey clsK n k s
-              if st.isEmpty then none else some s!"K{k} {showStream st}")
+        | some n => if n = 0 then "bad-op" else showDistribute n s
         | none => "bad-op"
     | some [a, b], ["pairto", n] =>
         match n.toNat? with
@@ -331,10 +364,42 @@ def run (line : String) : String :=
         joinSp ((List.range 3).filterMap fun c =>
           let k := (fl.filter fun r => r % 3 == c).length
           if k = 0 then none else some s!"c{c}={k}")
-    | some ss, ["pool"] =>
-        let out := pool ss.flatten
-        s!"orders={",".intercalate ((sortNat (out.map (·.1))).map toString)} recs={",".intercalate ((sortNat (flatten out)).map toString)}"
+    | some ss, ["pool"] => showPool ss
+    | some [], ["srccheck"] | some [[]], ["srccheck"] => "ok"
+    | some [s], ["keepiter", comb, n, p] =>
+        match n.toNat?, flagArg "p=" p with
+        | some n, some p => runKeepIter comb n p s
+        | _, _ => "bad-op"
+    | some [s], ["uniqdisk"] =>
+        let fl := flatten s
+        joinSp ((List.range 3).filterMap fun c =>
+          let k := (fl.filter fun r => r % 3 == c).length
+          if k = 0 then none else some s!"c{c}={k}")
     | _, _ => "bad-op"
   | _ => "bad-op"
+
+/-- `race <case>`: the same case replayed under the Go race detector (same result) -/
+def stripRace (ws : List String) : Option (List String) :=
+  match ws with
+  | "race" :: inner => if inner.isEmpty || inner.head? == some "race" then none else some inner
+  | _ => some ws
+
+/-- `mslow c=MODE <case>`: the same case with slow / bursty / late consumers: the delivery does not depend on
+the consumers' pace (every theorem of `Props/C03S.lean` is for all schedulings) -/
+def stripSlow (ws : List String) : Option (List String) :=
+  match ws with
+  | "mslow" :: mode :: inner =>
+    if (mode = "c=slow" || mode = "c=burst" || mode = "c=late") && !inner.isEmpty &&
+        inner.head? != some "mslow" && inner.head? != some "race" then some inner else none
+  | "mslow" :: _ => none
+  | _ => some ws
+
+def run (line : String) : String :=
+  match line.splitOn " | " with
+  | head :: streams =>
+    match (stripRace (words head)).bind stripSlow with
+    | some ws => if ws.isEmpty then "bad-op" else runBase (" | ".intercalate (joinSp ws :: streams))
+    | none => "bad-op"
+  | [] => "bad-op"
 
 end ObiVerif.Driver.C03
